@@ -26,6 +26,7 @@ func init() {
 			"(R6) every element literal starts with Visible: true; header fields come from the same-named header getters, the bbox edges from left/right/bottom/top scaled by 1e-9, the replication timestamp only under a presence test of its field; " +
 			"(R7, shared with C08.O5) element storage kept for reuse (tags, way nodes, members) is only re-sliced to [:0], extended by append of whole elements or replaced by zeroed make: a reused, non-zeroed backing array would let an element inherit a value (e.g. node coordinates) from an earlier element. " +
 			"(R8, shared with C08.O6) every cycle of the loop in which a worker receives blocks sends one result pair (or is taken under cancellation): the elements of a block are not dropped and the round-robin serializer stays in step with the file order. " +
+			"(R9, shared with C08.O8) an element appended to the object slice shares no backing array of its tags / way nodes / members with storage the decoder keeps across elements, groups or blocks (struct fields, package variables, pools): otherwise the values of an element the scanner has already returned are overwritten by a later one. " +
 			"Presence state of R2 may be kept in any of: bool locals, a struct of bools (also with methods), a bit set in a named integer, a bool array / made slice / map indexed by field number, fields of the decoder itself, a table of pointers to the iterators; helper functions and methods on that state are executed. " +
 			"NOT decided: numeric equality of coordinates/timestamps (overflow, rounding), UTF-8 and zlib handling, behaviour of protoscan and protobuf-go themselves, files using non-packed encodings of packed fields.",
 		Assumptions: []string{"go/types, go/cfg (x/tools v0.29.0)", "osmformat.proto in the repository is the format definition (its `// DELTA coded` comments mark delta columns)", "OSMData blobs hold a PrimitiveBlock", "protoscan read methods decode the wire encoding their name says", "one per-worker decoder value per goroutine (its fields are not shared)"},
@@ -39,11 +40,12 @@ func init() {
 			{ID: "R3", Floor: 6, Doc: "block parameters reset before parsing; parameters parsed before groups", Run: c01R3},
 			{ID: "R4", Floor: 30, Doc: "field provenance and formula shape (floor: destinations of the column table)", Run: c01R4},
 			{ID: "R6", Floor: 14, Doc: "format defaults and header mapping (floor: header fields + one literal per element kind)", Run: c01R6},
+			{ID: "R9", Floor: 3, Doc: "an element handed to the consumer shares no backing array with storage the decoder keeps (shared with C08.O8): a later element cannot overwrite the tags, nodes or members of an earlier one", Run: c08O8},
 			{ID: "R8", Floor: 1, Doc: "every block a worker receives yields one result pair: no block's elements are dropped or reordered (same necessary condition as C08.O6)", Run: c08O6},
 			{ID: "R7", Floor: 5, Doc: "reused element storage is never re-exposed without zeroing (same necessary condition as C08.O5)", Run: c08O5},
 		},
-		Benign: append(append(append(append(append(append(append([]core.Mutant{}, c01Benign...), c01Benign2...), c01Benign3...), c01Benign4...), c01Benign5...), c01Benign6...), c01Benign7...),
-		Mutants: append(append(append(append(append([]core.Mutant{}, c01Mutants2...), c01Mutants3...), c01Mutants4...), c01Mutants5...), []core.Mutant{
+		Benign: append(append(append(append(append(append(append(append([]core.Mutant{}, c01Benign...), c01Benign2...), c01Benign3...), c01Benign4...), c01Benign5...), c01Benign6...), c01Benign7...), c01Benign8...),
+		Mutants: append(append(append(append(append(append([]core.Mutant{}, c01Mutants2...), c01Mutants3...), c01Mutants4...), c01Mutants5...), c01Mutants6...), []core.Mutant{
 			{Name: "dense-uid-int32", File: "osmpbf/decode_data.go", Find: "v5, err := dec.uids.Sint32()", Replace: "v5, err := dec.uids.Int32()", ExpectRule: "R1", ExpectConstruct: "uids"},
 			{Name: "info-uid-as-uint32", File: "osmpbf/decode_data.go", Find: "\t\t\t\tcase 4:\n\t\t\t\t\tv, err := info.Int32()\n\t\t\t\t\tif err != nil {\n\t\t\t\t\t\treturn nil, err\n\t\t\t\t\t}\n\t\t\t\t\tway.UserID", Replace: "\t\t\t\tcase 4:\n\t\t\t\t\tv, err := info.Uint32()\n\t\t\t\t\tif err != nil {\n\t\t\t\t\t\treturn nil, err\n\t\t\t\t\t}\n\t\t\t\t\tway.UserID", ExpectRule: "R1", ExpectConstruct: "scanWays"},
 			{Name: "lat-lon-cases-swapped", File: "osmpbf/decode_data.go", Find: "\t\tcase 8: // lat\n\t\t\tdec.lats, err = msg.Iterator(dec.lats)\n\t\t\tfoundLats = true\n\t\tcase 9: // lon\n\t\t\tdec.lons, err = msg.Iterator(dec.lons)\n\t\t\tfoundLons = true", Replace: "\t\tcase 9: // lat\n\t\t\tdec.lats, err = msg.Iterator(dec.lats)\n\t\t\tfoundLats = true\n\t\tcase 8: // lon\n\t\t\tdec.lons, err = msg.Iterator(dec.lons)\n\t\t\tfoundLons = true", ExpectRule: "R4", ExpectConstruct: "Node.Lat"},
